@@ -39,6 +39,7 @@ type World struct {
 	elemC   map[elemKey]*elemBound
 	condC     map[string][]condFact
 	constMaps map[*ssa.Global]*constMapInfo
+	condBusy  int // conditional postconditions being computed (entry facts found meanwhile are not cached)
 }
 
 func NewWorld(p *load.Program) *World {
